@@ -214,35 +214,24 @@ pub fn show_valuation(v: &BTreeMap<u64, Val>, support: &[u64]) -> String {
 
 // ------------------------------------------------------------------ shrinking of texts
 
-/// Greedy text minimiser: delete lines, drop operand negations, drop trailing symbols, while
+/// Greedy text minimiser: redirect references to operator results to earlier nodes (turns a
+/// chain into its failing operator), delete lines, merge symbols, drop operand negations - while
 /// `fails` keeps returning true. Deterministic.
 pub fn shrink_text(text: &str, fails: &dyn Fn(&str) -> bool) -> String {
-    let mut lines: Vec<String> = text.lines().map(|l| l.to_string()).collect();
-    let join = |ls: &[String]| {
+    fn join(ls: &[String]) -> String {
         let mut s = ls.join("\n");
         s.push('\n');
         s
-    };
-    let mut changed = true;
-    let mut rounds = 0;
-    while changed && rounds < 12 {
-        changed = false;
-        rounds += 1;
-        // delete lines, last first
-        let mut i = lines.len();
-        while i > 0 {
-            i -= 1;
-            if lines.len() <= 1 {
-                break;
-            }
-            let mut cand = lines.clone();
-            cand.remove(i);
-            if fails(&join(&cand)) {
-                lines = cand;
-                changed = true;
-            }
-        }
-        // redirect operands and roots to earlier nodes (turns a chain into its failing operator)
+    }
+    /// one successful redirection, or false
+    fn redirect(lines: &mut Vec<String>, phase: u32, fails: &dyn Fn(&str) -> bool) -> bool {
+        let leaf_ids: Vec<String> = lines
+            .iter()
+            .filter_map(|l| {
+                let t: Vec<&str> = l.split(' ').collect();
+                if t.len() > 2 && ["input", "state", "const", "constd", "consth", "zero", "one", "ones"].contains(&t[1]) { Some(t[0].to_string()) } else { None }
+            })
+            .collect();
         for i in 0..lines.len() {
             let toks: Vec<String> = lines[i].split(' ').map(|t| t.to_string()).collect();
             if toks.len() < 3 || ["sort", "input", "state", "const", "constd", "consth", "zero", "one", "ones"].contains(&toks[1].as_str()) {
@@ -271,6 +260,9 @@ pub fn shrink_text(text: &str, fails: &dyn Fn(&str) -> bool) -> String {
                 if (toks[1] == "init" || toks[1] == "next") && k == 3 {
                     continue;
                 }
+                if phase == 0 && leaf_ids.contains(&id) {
+                    continue;
+                }
                 for cand in earlier.iter() {
                     if *cand == id {
                         break; // only strictly earlier nodes
@@ -280,17 +272,45 @@ pub fn shrink_text(text: &str, fails: &dyn Fn(&str) -> bool) -> String {
                     let mut c = lines.clone();
                     c[i] = t2.join(" ");
                     if fails(&join(&c)) {
-                        lines = c;
-                        changed = true;
-                        break;
+                        *lines = c;
+                        return true;
                     }
-                }
-                if changed {
-                    break;
                 }
             }
         }
-        // un-negate tokens / drop trailing name
+        false
+    }
+    let mut lines: Vec<String> = text.lines().map(|l| l.to_string()).collect();
+    let mut changed = true;
+    let mut rounds = 0;
+    while changed && rounds < 12 {
+        changed = false;
+        rounds += 1;
+        // A: references to operator results -> earlier nodes
+        let mut guard = 0;
+        while guard < 40 && redirect(&mut lines, 0, fails) {
+            changed = true;
+            guard += 1;
+        }
+        // B: delete lines, last first
+        let mut i = lines.len();
+        while i > 0 {
+            i -= 1;
+            if lines.len() <= 1 {
+                break;
+            }
+            let mut cand = lines.clone();
+            cand.remove(i);
+            if fails(&join(&cand)) {
+                lines = cand;
+                changed = true;
+            }
+        }
+        // C: merge symbols only when nothing else moved
+        if !changed && redirect(&mut lines, 1, fails) {
+            changed = true;
+        }
+        // D: un-negate operands
         for i in 0..lines.len() {
             let toks: Vec<String> = lines[i].split(' ').map(|t| t.to_string()).collect();
             for k in 2..toks.len() {
